@@ -3,8 +3,11 @@ pub mod analysis;
 pub mod evrec;
 pub mod exec;
 pub mod oracles_run;
+pub mod oracles_stream;
 pub mod pipelines;
+pub mod recw;
 pub mod report;
 pub mod rng;
 pub mod spec;
+pub mod synth;
 pub mod world;
